@@ -80,7 +80,7 @@ def fuzz_trace(rng, uni, mp, sets, name, steps=12):
                 msgs.append((m, cls, ps))
         elif op == "finish":
             k = rng.randrange(8)
-            own = getattr(r.t.objs[r.inst[var]], "outbound_message", b"")
+            own = r.t.own(r.inst[var])
             cand = [m for m, c, p in msgs]
             good = [m for m, c, p in msgs if p == ps and m[:1] == PEER[cls] and m[1:] != own]
             if k <= 2 and good:
@@ -160,7 +160,7 @@ def lineage_trace(rng, uni, mp, ps, g, cls, name, steps=14):
         elif op == "start":
             r.start(var, mp.stream_for(g, rng.randrange(q)), fail_after=0 if rng.random() < 0.2 else None)
         elif op == "finish":
-            own = getattr(r.t.objs[r.inst[var]], "outbound_message", b"x")[1:]
+            own = r.t.own(r.inst[var])
             k = rng.randrange(6)
             body = own if k == 0 else G.Zero.to_bytes() if k == 1 else G.Base.scalarmult(rng.randrange(1, q)).to_bytes()
             if k == 2:
